@@ -8,6 +8,68 @@ func init() {
 	vHarnesses["VerifC18Patch"] = VerifC18Patch
 	vHarnesses["VerifC18Merge"] = VerifC18Merge
 	vHarnesses["VerifC18Canary"] = VerifC18Canary
+	vHarnesses["VerifC18Deep"] = VerifC18Deep
+	vHarnesses["VerifC18Kinds"] = VerifC18Kinds
+}
+
+// vC18Small: an object over the keys c,d,e (each absent, a number, or with ARRS=1 a short array).
+func vC18Small() jsonObject {
+	o := jsonObject{}
+	for _, key := range []string{"c", "d", "e"}[:vParam("SMALLKEYS", 2)] {
+		switch vChoice(2 + vParam("ARRS", 0)) {
+		case 0:
+		case 1:
+			o[key] = vNum()
+		default:
+			o[key] = vNumArray(1)
+		}
+	}
+	return o
+}
+
+// VerifC18Deep: both renderings for documents below a chain of keys (and, for JSON Patch, array
+// positions) of every length up to DEPTH: path slices of every length and spare capacity in the
+// renderers and in the readers (ReadPatchString, ReadMergeString / readMergeInto).
+func VerifC18Deep() {
+	depth := vChoice(vParam("DEPTH", 7) + 1)
+	var a, b JsonNode = vC18Small(), vC18Small()
+	merge := vChoice(2) == 1
+	for i := 0; i < depth; i++ {
+		if !merge && vParam("CHAINKINDS", 1) > 1 && vChoice(2) == 1 {
+			a, b = jsonArray{a}, jsonArray{b}
+		} else {
+			a, b = jsonObject{"p": a}, jsonObject{"p": b}
+		}
+	}
+	if merge {
+		vC18MergeLegs(a, b)
+		vCover("c18.deep.merge")
+	} else {
+		vC18PatchLegs(a, b)
+		vCover("c18.deep.patch")
+	}
+}
+
+// VerifC18Kinds: JSON Patch legs over arrays and objects holding every scalar kind.
+func VerifC18Kinds() {
+	var a, b JsonNode
+	if vChoice(2) == 0 {
+		n := vParam("N", 2)
+		a, b = vKindArray(n), vKindArray(n)
+	} else {
+		oa, ob := jsonObject{}, jsonObject{}
+		for _, key := range []string{"a", "b"} {
+			if vChoice(2) == 1 {
+				oa[key] = vLeafK()
+			}
+			if vChoice(2) == 1 {
+				ob[key] = vLeafK()
+			}
+		}
+		a, b = oa, ob
+	}
+	vC18PatchLegs(a, b)
+	vCover("c18.kinds")
 }
 
 var vC18Keys = [...]string{"0", "a~1b", "a/b", "10", "m~n", "k"}
@@ -71,6 +133,11 @@ func VerifC18Patch() {
 	if vKnown("hash.alias") {
 		vAssumeNoHashAlias(a, b)
 	}
+	vC18PatchLegs(a, b)
+	vCover("c18.patch")
+}
+
+func vC18PatchLegs(a, b JsonNode) {
 	d := a.Diff(b)
 	s, err := d.RenderPatch()
 	vAssert(err == nil, "v1 RenderPatch failed on a list-mode diff")
@@ -89,7 +156,6 @@ func VerifC18Patch() {
 	p, err := vClone(a).Patch(d2)
 	vAssert(err == nil, "v1 JSON Patch output, read back, does not apply to a")
 	vAssert(refEq(p, b, modeList, 0), "v1 JSON Patch output, read back and applied to a, does not give b")
-	vCover("c18.patch")
 }
 
 // VerifC18Merge: the v1 JSON Merge Patch rendering evaluates to b under RFC 7386, and read back
@@ -118,6 +184,12 @@ func VerifC18Merge() {
 			vAssume(aIsObj)
 		}
 	}
+	vC18MergeLegs(a, b)
+	vCover("c18.merge")
+}
+
+func vC18MergeLegs(a, b JsonNode) {
+	vAssume(!refEq(a, b, modeList, 0))
 	d := a.Diff(b, MERGE)
 	s, err := d.RenderMerge()
 	vAssert(err == nil, "v1 RenderMerge failed on a merge-mode diff")
@@ -130,7 +202,6 @@ func VerifC18Merge() {
 	p, err := vClone(a).Patch(d2)
 	vAssert(err == nil, "v1 merge patch output, read back, does not apply to a")
 	vAssert(refEq(p, b, modeList, 0), "v1 merge patch output, read back and applied to a, does not give b")
-	vCover("c18.merge")
 }
 
 // VerifC18Canary must be violated.
